@@ -33,6 +33,13 @@ CHECKS = {
              "strangers, literals harvested from the generated source) under every alias-source assignment.", ref="6 C09"),
     "C10": c("Resolution functions run on 14 symbolic presence bits return the lexicographic minimum; end-to-end tagged classes "
              "for enumerated subsets agree.", ref="6 C10"),
+    "C06": c("The real jsonschema Draft 2020-12 validator runs symbolically on jsonify(encode(v)) against the schema built by the real "
+             "build_json_schema for both dialects; required = exactly the fields without defaults.",
+             "jsonify stub validated against json.loads(json.dumps()) on replays.", "6 C06"),
+    "C18": c("Identity-graph intersection of value and encoding equals the sharing predicted from the type hints and the "
+             "no_copy_collections set; object and decode input unchanged.", ref="6 C18"),
+    "C19": c("Recorded hook trace equals the pre/post-order traversal for all lengths / union members / None-ness, through mixin, "
+             "codec and format mixins (identity transport), with context forwarding.", ref="6 C19"),
     "C11": c("Union/Optional/Literal decode equals REF_UNION_DECODE for arbitrary input, encode equals the member's encoding.",
              "Union-order reading documented in DESIGN.md.", "6 C11"),
 }
